@@ -1893,6 +1893,11 @@ mod crypto {
         /// If this fails, there is no recovery. The buffered data will have been
         /// lost.
         fn flush(&mut self) -> Result<(), Error> {
+            if self.failed {
+                // A previous flush failed half-way: the buffer then holds already encrypted data, and
+                // flushing it again would emit a garbage chunk and report success.
+                return Err(Error::new(ErrorKind::Other, "Call to failed CryptoWriter"));
+            }
             self.failed = true;
             let mut offset = 0;
 
